@@ -20,6 +20,16 @@ CHECKS = {
             "After every operation of churn-biased histories (and after reopen) the layout is walked under layout->regions->meta read locks: regions/holes/pending holes/reservations aligned, disjoint, gap-free up to Layout::len(), inside the file, promoted holes merged, size index and slot table consistent; each creation/relocation is judged against the pre-state holes (an adequate hole must be used).",
             "Transient states inside an operation are not judged; needs the cfg(verif) accessors for pending holes / reservations.",
             "DESIGN.md §4 C02"),
+    "C05": ("E-CRASH", "fault_enumeration",
+            "durable-image simulator over recorded mmap-write/set_len/sync/punch events; every crash image opened with the real Database::open",
+            "Single-threaded histories are executed with every mmap write, length change, sync and hole punch of both files recorded; a shadow keeps the durable bytes and, per 4 KiB page, every version written since the file's last sync. At event boundaries (all inside flush/compact/region flush/reopen, a sample elsewhere) the strict image and writeback images (all-latest, one file only, each single dirty page/version alone, all-but-one, random subsets) are written to scratch files and recovered with the real open; the result must open, be a valid partition inside the file, keep every region untouched since the last returned flush byte-identical, and (strict) show each region not overwritten in place either as at the last completed flush or as at the begin of the interrupted one.",
+            "The OS is modelled under the property's own assumptions (atomic pages, ordered length changes, fdatasync complete, punch immediate); torn writes inside one event and multi-threaded crash histories are not generated.",
+            "DESIGN.md §4 C05"),
+    "C12": ("E-CRASH", "fault_enumeration",
+            "online punch-event checker against durable and live metadata + crash images inside compact()",
+            "Compaction-heavy histories: every Punch event is checked against the page-rounded content of every region according to both the durable regions-file shadow and the live one; each compact() is followed by a full model comparison and layout walk; the data-file length must not change; every event boundary inside compact() yields crash images judged as in C05. (The concurrent clause is served by the controlled scheduler, see DESIGN.)",
+            "Same OS model as C05; punch support of the scratch file system is required (otherwise inconclusive).",
+            "DESIGN.md §4 C12"),
 }
 
 NOT_YET = {}
@@ -58,6 +68,7 @@ def main():
         },
         "engines": [
             {"name": "E-MODEL", "path": "harness/src/rawmodel.rs, harness/src/c_raw.rs", "serves_properties": ["C01", "C02", "C13"], "kind_free_text": "seeded history generator + reference model + step-wise comparator + ddmin shrinker"},
+            {"name": "E-CRASH", "path": "harness/src/crash.rs, harness/src/c_crash.rs", "serves_properties": ["C05", "C12"], "kind_free_text": "durable-image shadow of both files from hook events; crash images recovered by the real open"},
             {"name": "E-LAYOUT", "path": "harness/src/rawmodel.rs (check_layout)", "serves_properties": ["C02", "C10", "C13"], "kind_free_text": "extent/partition invariant walker at quiescent points"},
         ],
         "checks": checks,
